@@ -438,7 +438,7 @@ fn run(sc: &Sc, ctx: &mut Ctx) {
 fn linked_settings(ctx: &mut Ctx) {
 	let sr = 1u32;
 	let frames: Vec<Frame> = (0..24).map(code).collect();
-	for which_param in 0..3 {
+	for which_param in 0..5 {
 		for live in [true, false] {
 			for chunk in [1usize, 3, 4] {
 				ctx.evals += 1;
@@ -461,17 +461,35 @@ fn linked_settings(ctx: &mut Ctx) {
 						sd = sd.panning(pan);
 						td = td.panning(pan);
 					}
-					_ => {
+					2 => {
 						sd = sd.playback_rate(rate);
 						td = td.playback_rate(rate);
+					}
+					3 => {
+						// a slice of a slice, the second one open-ended (live: c inside the first slice; otherwise beyond it)
+						let c = if live { 3 } else { 14 };
+						sd = sd.slice(reg(4, 12)).slice(reg(c, usize::MAX));
+						td = td.slice(reg(4, 12)).slice(reg(c, usize::MAX));
+					}
+					_ => {
+						// a delayed start that is not a whole number of chunks
+						let d = Duration::from_secs_f64(if live { 5.0 } else { 7.5 });
+						sd = sd.start_time(StartTime::Delayed(d));
+						td = td.start_time(StartTime::Delayed(d));
 					}
 				}
 				let (mut ss, _hs) = sd.into_sound().expect("static");
 				let (mut ts, mut ht) = td.into_sound().map_err(|_| ()).expect("streaming");
 				let mut so = vec![Frame::ZERO; chunk];
 				let mut to = vec![Frame::ZERO; chunk];
-				let what = format!("24-frame sound, initial {} = FromModulator({}) mapped linearly, chunk {}", ["volume (-12..-2 dB)", "panning (-0.8..0.4)", "playback rate (2..0.5)"][which_param], if live { "a modulator at 0.5" } else { "a modulator id that does not exist" }, chunk);
-				'cbs: for cb in 0..6 {
+				let what = if which_param < 3 {
+					format!("24-frame sound, initial {} = FromModulator({}) mapped linearly, chunk {}", ["volume (-12..-2 dB)", "panning (-0.8..0.4)", "playback rate (2..0.5)"][which_param], if live { "a modulator at 0.5" } else { "a modulator id that does not exist" }, chunk)
+				} else if which_param == 3 {
+					format!("24-frame sound, .slice(4..12).slice({}..), chunk {}", if live { 3 } else { 14 }, chunk)
+				} else {
+					format!("24-frame sound, start_time Delayed({} frames), chunk {}", if live { 5.0 } else { 7.5 }, chunk)
+				};
+				'cbs: for cb in 0..10 {
 					pacer::step(first, 2 * chunk as u64 + 8);
 					ss.on_start_processing();
 					ts.on_start_processing();
